@@ -1,7 +1,7 @@
 (* One entry point for the correspondence check: a request (an S-expression naming a stage and its input) is
    decoded, run through the model, and the observable encoded back.  Used extracted (driver/) and inside Coq. *)
 From Coq Require Import List String Ascii Bool NArith.
-From Yae Require Import Base.Sexp Model.Ty Model.Unify Model.Lexer Model.Literal Model.Cst Model.Pratt Model.Desugar Model.Check.
+From Yae Require Import Base.Sexp Model.Ty Model.Unify Model.Lexer Model.Literal Model.Cst Model.Pratt Model.Desugar Model.Check Model.Num Model.Val Model.Render.
 Import ListNotations.
 Open Scope string_scope.
 
@@ -130,6 +130,29 @@ Definition run_check (args : list sexp) : sexp :=
   | _ => bad
   end.
 
+Section WithNum.
+Variable ops : numops.
+
+Definition enc_m {X} (f : X -> sexp) (m : M X) : sexp :=
+  match m with
+  | (_, OVal x) => L [A "ok"; f x]
+  | (_, OFail _) => A "fail"
+  | (_, OFault _) => A "fault"
+  end.
+
+(* (render v) (stringify v) (key v) (valeq x y) *)
+Definition run_render (args : list sexp) : sexp :=
+  match args with [v] => match dec_val v with Some v' => eNs (render ops v') | None => bad end | _ => bad end.
+Definition run_stringify (args : list sexp) : sexp :=
+  match args with [v] => match dec_val v with Some v' => eNs (stringify ops v') | None => bad end | _ => bad end.
+Definition run_key (args : list sexp) : sexp :=
+  match args with [v] => match dec_val v with Some v' => enc_m eNs (key_of ops v') | None => bad end | _ => bad end.
+Definition run_valeq (args : list sexp) : sexp :=
+  match args with
+  | [x; y] => match dec_val x, dec_val y with Some a, Some b => eB (val_eqb ops a b) | _, _ => bad end
+  | _ => bad
+  end.
+
 Definition dispatch (req : sexp) : sexp :=
   match req with
   | L (A tag :: args) =>
@@ -144,6 +167,11 @@ Definition dispatch (req : sexp) : sexp :=
       else if tag =? "desugar" then run_desugar args
       else if tag =? "strlit" then run_strlit args
       else if tag =? "check" then run_check args
+      else if tag =? "render" then run_render args
+      else if tag =? "stringify" then run_stringify args
+      else if tag =? "key" then run_key args
+      else if tag =? "valeq" then run_valeq args
       else bad
   | _ => bad
   end.
+End WithNum.
